@@ -128,7 +128,7 @@ def run(facts, tier):
     # ---- C10-4
     ex = e2.Extractor(facts)
     for fn in facts.fns.values():
-        if c01.XML_GRAMMAR(fn):
+        if c01.XML_GRAMMAR(fn) and "nom::Err<" in fn.get("sig", ""):
             try:
                 ex.fn_term(fn)
             except e2.Unknown as u:
@@ -291,8 +291,8 @@ def c10_5(facts, res):
             if ch[0] in ("find", "position", "find_map", "rfind", "rposition", "last", "first", "next"):
                 newest = ch[0] in ("rfind", "rposition", "last") or "rev" in ch
                 readers.append((f, n, newest))
-    if not writers or len(readers) < 3:
-        raise BrokenCheck("C10-5: %d writers / %d readers of Context.namespaces (floor 1 / 3)" % (len(writers), len(readers)))
+    if not writers or len(readers) < 2:
+        raise BrokenCheck("C10-5: %d writers / %d readers of Context.namespaces (floor 1 / 2)" % (len(writers), len(readers)))
     st["instances"] = len(writers) + len(readers)
     st["writers"] = len(writers)
     st["readers"] = len(readers)
